@@ -1005,7 +1005,9 @@ func (f *frame) instr(n *vnode, st *State, in ssa.Instruction) {
 	case *ssa.Defer:
 		f.deferInstr(st, in)
 	case *ssa.Go:
-		unsup("go statement")
+		// starting a goroutine has no sequential effect; what it does later is
+		// interference, which is outside the sequential model
+		vc.note("goroutine start ignored: " + in.String() + " (its later effects are interference, not modelled)")
 	default:
 		unsup("instruction %T (%s)", in, in)
 	}
